@@ -242,16 +242,22 @@ class Model:
         return self.p.stdout.readline().strip()
 
     def ask_many(self, lines):
-        """Batch: write all, then read all (the driver flushes per line, pipes are large
-        enough because we interleave in chunks)."""
-        out = []
-        CH = 200
-        for i in range(0, len(lines), CH):
-            chunk = lines[i:i + CH]
-            self.p.stdin.write("\n".join(chunk) + "\n")
-            self.p.stdin.flush()
-            for _ in chunk:
-                out.append(self.p.stdout.readline().strip())
+        """Batch: a writer thread feeds the requests while this thread reads the answers, so
+        neither pipe can fill up whatever the line lengths are."""
+        import threading
+
+        def feed():
+            try:
+                for i in range(0, len(lines), 500):
+                    self.p.stdin.write("\n".join(lines[i:i + 500]) + "\n")
+                self.p.stdin.flush()
+            except Exception:
+                pass
+
+        t = threading.Thread(target=feed, daemon=True)
+        t.start()
+        out = [self.p.stdout.readline().strip() for _ in lines]
+        t.join()
         self.calls += len(lines)
         return out
 
